@@ -531,6 +531,15 @@ def install(c):
 
     S["cubed.core.plan:Plan._new"] = plan_new
 
+    # execution entry points: building code must never reach them (C16); reaching one is recorded as an effect and
+    # yields an arbitrary value (what the computation would have returned)
+    def _executes(it_, fn, a, k):
+        it_.ctx.effect("execute", getattr(fn, "qual", "compute"))
+        return it_.ctx.fresh_int("computed_value")
+
+    S.setdefault("cubed.core.array:CoreArray.compute", _executes)
+    S.setdefault("cubed.core.array:compute", _executes)
+
     def intermediate_store(it, fn, a, k):
         spec = k.get("spec", a[0] if a else None)
         return Opaque("intermediate-store", spec=spec)
